@@ -141,6 +141,9 @@ fn body_body(c: &BodyCase, ch: &Chooser) -> Outcome {
         o.violate("stall", "body did not finish");
         return o;
     }
+    if ch.has_flag(crate::env::SOURCE_POLLED_AFTER_END) {
+        o.violate("source-polled-after-end", "the body polled its message source again after the source had returned None");
+    }
     judge_frames(&mut o, "body", &got.bytes(), &c.msgs[..good], c.enc, Some(c.enc.is_some() as u8));
     match c.role {
         Role::Client => {
